@@ -17,18 +17,18 @@ EXAMPLES = sorted(glob.glob(os.path.join(REPO, "floogen", "examples", "*.yml")))
 # per property: generator restrictions and case counts (quick, thorough)
 CONFIG = {
     "C01": dict(algos=None, families=None, n=(250, 4000), derived_sweep=True),
-    "C02": dict(algos=["ID"], families=["star", "mesh", "meshx", "tree", "custom"], n=(200, 3000), perms=True, derived_sweep=True, topo_sweep=True, inject=2),
-    "C03": dict(algos=["SRC"], families=["star", "mesh", "meshx", "tree", "custom"], n=(200, 3000), perms=True, derived_sweep=True, topo_sweep=True, inject=2),
+    "C02": dict(algos=["ID"], families=["star", "mesh", "meshx", "tree", "custom"], n=(200, 3000), perms=True, derived_sweep=True, topo_sweep=True, inject=2, degree_sweep=True),
+    "C03": dict(algos=["SRC"], families=["star", "mesh", "meshx", "tree", "custom"], n=(200, 3000), perms=True, derived_sweep=True, topo_sweep=True, inject=2, degree_sweep=True),
     "C04": dict(algos=["XY"], families=["mesh"], n=(200, 3000), xy_sweep=True, skip_xy_offset=True),
-    "C05": dict(algos=None, families=None, n=(250, 4000), perms=True, topo_sweep=True, overfull_sweep=True, inject=5),
-    "C06": dict(algos=None, families=None, n=(250, 4000), topo_sweep=True, overfull_sweep=True, inject=4),
-    "C07": dict(algos=None, families=None, n=(250, 4000), perms=True, derived_sweep=True, inject=2),
-    "C08": dict(algos=None, families=None, n=(250, 4000), inject=2),
+    "C05": dict(algos=None, families=None, n=(250, 4000), perms=True, topo_sweep=True, overfull_sweep=True, inject=5, degree_sweep=True),
+    "C06": dict(algos=None, families=None, n=(250, 4000), topo_sweep=True, overfull_sweep=True, inject=4, degree_sweep=True),
+    "C07": dict(algos=None, families=None, n=(250, 4000), perms=True, derived_sweep=True, inject=2, degree_sweep=True),
+    "C08": dict(algos=None, families=None, n=(250, 4000), inject=2, degree_sweep=True),
     "C09": dict(algos=["ID", "SRC"], families=["mesh", "tree"], n=(150, 1500), mesh_sweep=True),
     "C11": dict(algos=None, families=None, n=(150, 2000), inject=3),
-    "C12": dict(algos=None, families=None, n=(200, 2000), size_sweep=True, derived_sweep=True, inject=3, topo_sweep=True),
+    "C12": dict(algos=None, families=None, n=(200, 2000), size_sweep=True, derived_sweep=True, inject=3, topo_sweep=True, degree_sweep=True),
     "C13": dict(algos=None, families=None, n=(250, 4000), derived_sweep=True, inject=2, degree_sweep=True),
-    "C14": dict(algos=["ID", "SRC"], families=["star", "mesh", "meshx", "tree", "custom"], n=(200, 3000), chain_sweep=True, topo_sweep=True),
+    "C14": dict(algos=["ID", "SRC"], families=["star", "mesh", "meshx", "tree", "custom"], n=(200, 3000), chain_sweep=True, topo_sweep=True, degree_sweep=True),
 }
 
 
@@ -126,6 +126,10 @@ def sweep_cases(pid, tier, rng):
                 cfg = gen_desc.gen_degree_mesh(rng, algo, rng.choice(["axi", "narrow-wide"]), degree)
                 if cfg:
                     out.append((f"degree:{algo}:{degree}", cfg))
+            if algo != "XY":
+                cfg = gen_desc.gen_degree_mesh(rng, algo, "axi", 6, double_eject=True)
+                if cfg:
+                    out.append((f"double-eject:{algo}", cfg))
             for tl in ([False, True] if algo != "XY" or True else [False]):
                 cfg = gen_desc.gen_star(rng, algo, "axi") if algo != "XY" else gen_desc.gen_mesh(rng, algo, "axi", m=2, n=2, sides=[], partial_local=False)
                 if cfg and tl:
